@@ -151,6 +151,7 @@ func msClass(m uint32) string {
 
 func runC12(c *ev.Ctx) {
 	c12Server(c)
+	c12Pipelined(c)
 	c12Client(c)
 }
 
@@ -476,5 +477,60 @@ func c12Exercise(c *ev.Ctx, cl *p9.Client, fs *fakesrv.Server, what string, tiny
 			}
 			c.Violation(sig, map[string]any{"offer": what, "monitor": m})
 		}
+	}
+}
+
+// c12Pipelined: two Tversions under different tags leave in one write, asking
+// for different things. Each is answered for what IT asked, whatever the other
+// does to the connection's state meanwhile.
+func c12Pipelined(c *ev.Ctx) {
+	r := c.Rand("c12pipe")
+	rounds := c.Sz(600, 20000)
+	strs := []string{"9P2000.L", "9P2000.L.Google.1", "9P2000.L.Google.7", "9P2000.L.Google.9", "9P2000.L.Google.3", "9P2000.u", "9P2000.L.Google.12"}
+	sizes := []uint32{8192, 1<<32 - 1, 65536, 4096, mib4, 1 << 20, 700}
+	var p *rawpeer.Peer
+	for i := 0; i < rounds; i++ {
+		if !c.Mine(i) {
+			continue
+		}
+		if p == nil || i%50 == 0 {
+			if p != nil {
+				p.Close()
+			}
+			p = rawpeer.New(p9.NewServer(noAttach{}), altTransport())
+		}
+		c.Begin(fmt.Sprintf("C12 pipelined round %d", i))
+		a, b := r.Intn(len(strs)), r.Intn(len(strs))
+		ma, mb := sizes[r.Intn(len(sizes))], sizes[r.Intn(len(sizes))]
+		from := p.NReplies()
+		fa := wire.Encode(wire.Tversion, 1, uint64(ma), strs[a])
+		fb := wire.Encode(wire.Tversion, 2, uint64(mb), strs[b])
+		p.Expect(fa)
+		p.Expect(fb)
+		p.SendRaw(append(fa, fb...))
+		for k, q := range []struct {
+			tag uint16
+			ms  uint32
+			s   string
+		}{{1, ma, strs[a]}, {2, mb, strs[b]}} {
+			rep, ok, o, d := p.WaitTag(q.tag, from)
+			res := rawpeer.Result{OK: ok, Out: o, Dump: d}
+			if ok {
+				res.Msg, res.Raw = rep.Msg, rep.Raw
+			}
+			checkRversion(c, res, q.ms, q.s, fmt.Sprintf("pipelined-%d-of-2", k+1))
+			if !ok {
+				p.Close()
+				p = nil
+				break
+			}
+		}
+		if p != nil {
+			p.Monitor()
+		}
+		c.Count("pipelined_tversion_pairs", 1)
+	}
+	if p != nil {
+		p.Close()
 	}
 }
